@@ -3,10 +3,13 @@ package c18
 import (
 	"bytes"
 	"context"
+	"encoding/json"
 	"fmt"
+	"github.com/huderlem/poryscript/parser"
 	"os"
 	"os/exec"
 	"path/filepath"
+	"strconv"
 	"strings"
 	"sync"
 	"sync/atomic"
@@ -101,6 +104,48 @@ func runCLI(ctx *h.Ctx, e *env) {
 		return
 	}
 	cc := filepath.Join(h.RepoDir, "command_config.json")
+	var libCfg parser.CommandConfig
+	if b, err := os.ReadFile(cc); err != nil || json.Unmarshal(b, &libCfg) != nil {
+		ctx.Inconclusive("cannot decode %s", cc)
+		return
+	}
+	// libOpts translates the command line of a case into library options: the expected exit status is 0 exactly
+	// when the library accepts the same input under the same options
+	libOpts := func(c cliCase, file string) h.Opts {
+		o := h.Opts{Optimize: true, LM: true, Cfg: libCfg, FontPath: e.fontValid, Switches: map[string]string{}}
+		if !c.stdin {
+			o.Path = file
+		}
+		for i := 0; i < len(c.args); i++ {
+			a := c.args[i]
+			next := func() string {
+				if i+1 < len(c.args) {
+					i++
+					return c.args[i]
+				}
+				return ""
+			}
+			switch {
+			case a == "-s":
+				kv := next()
+				if j := strings.Index(kv, "="); j >= 0 {
+					o.Switches[kv[:j]] = kv[j+1:]
+				}
+			case a == "-f":
+				o.FontID = next()
+			case a == "-fc":
+				o.FontPath = next()
+			case a == "-l":
+				n, _ := strconv.Atoi(next())
+				o.MaxLen = n
+			case a == "-optimize=false":
+				o.Optimize = false
+			case a == "-lm=false":
+				o.LM = false
+			}
+		}
+		return o
+	}
 	ctx.RunCases("cli", len(cases), func(k *h.Case) {
 		c := cases[k.Index%len(cases)]
 		k.SetSource(c.src)
@@ -168,12 +213,29 @@ func runCLI(ctx *h.Ctx, e *env) {
 		case signalled:
 			k.Count("cli_signalled", 1)
 			cliViolation(k, "cli-signal", fmt.Sprintf("poryscript CLI (%s) was killed by a signal instead of exiting with status 0 or 1", c.name), details)
-		case exit == 0:
-			k.Count("cli_exit_0", 1)
-			k.Nontrivial("cli", 0, shapeOf(c.src), strings.Join(c.args, " "))
-		case exit == 1 && hasErrorLine(stderr):
-			k.Count("cli_exit_1_marked", 1)
-			k.Nontrivial("cli", 1, shapeOf(c.src), strings.Join(c.args, " "))
+		case exit == 0 || (exit == 1 && hasErrorLine(stderr)):
+			// a legal way to end; it must also be the RIGHT one: status 0 with output exactly when the library
+			// accepts the same input under the same options
+			lib := h.Compile(c.src, libOpts(c, file))
+			k.Count("evaluations", 1)
+			switch {
+			case lib.Panic != nil:
+				// (reported by the library-level classes)
+			case lib.OK() != (exit == 0):
+				cliViolation(k, "cli-status-differs", fmt.Sprintf("poryscript CLI (%s) exited with status %d, but the library %s the same input under the same options (%s)", c.name, exit, map[bool]string{true: "accepts", false: "rejects"}[lib.OK()], lib.ErrString()), details)
+			case exit == 0 && lib.Out != "" && outLen == 0:
+				cliViolation(k, "cli-no-output", fmt.Sprintf("poryscript CLI (%s) exited with status 0 without writing the %d bytes of output the library produces", c.name, len(lib.Out)), details)
+			case exit == 1 && lib.Err != nil && !strings.Contains(stderr, lib.Err.Error()):
+				cliViolation(k, "cli-error-differs", fmt.Sprintf("poryscript CLI (%s) reports %q, the library error is %q", c.name, head(stderr, 200), lib.Err.Error()), details)
+			default:
+				k.Count("cli_status_matches_library", 1)
+			}
+			if exit == 0 {
+				k.Count("cli_exit_0", 1)
+			} else {
+				k.Count("cli_exit_1_marked", 1)
+			}
+			k.Nontrivial("cli", exit, shapeOf(c.src), strings.Join(c.args, " "))
 		case exit == 1:
 			k.Count("cli_exit_1_unmarked", 1)
 			cliViolation(k, "cli-exit-1-unmarked", fmt.Sprintf("poryscript CLI (%s) exited with status 1 but no stderr line starts with \"PORYSCRIPT ERROR\": %q", c.name, head(stderr, 200)), details)
